@@ -1357,7 +1357,7 @@ Definition ab_default_ops : list op := [ (false, cfg (B "a.test") []); (true, cf
 Definition get1 (tr : N) (sni : option bytes) (hh : list bytes) (authority : option bytes) : wreq :=
   mkW tr sni false s_GET hh authority (B "/h/page") 0.
 
-(** before e8886f0: a request without Host header is not answered when there is no default host *)
+(** before 2fb2d8c: a request without Host header is not answered when there is no default host *)
 Lemma absent_host_closed_refuted : forall auth_ok : bytes -> bool,
   exists ops c r, build ops = Ok c /\
     wire_history auth_ok snapshot c (fun _ => hstate0) [r] = [Ok WClosed] /\
@@ -1368,7 +1368,7 @@ Proof.
   split; [vm_compute; reflexivity|]. split; [|split]; vm_compute; reflexivity.
 Qed.
 
-(** before c618f50: a Host value that is not a URI authority closes the connection, also when there is a
+(** before cdbcb3a: a Host value that is not a URI authority closes the connection, also when there is a
     default host that the property names as the one to answer *)
 Lemma bad_authority_closed_refuted : forall auth_ok : bytes -> bool, auth_ok (B "a b") = false ->
   exists ops c r, build ops = Ok c /\
@@ -1382,7 +1382,7 @@ Proof.
   split; [|split]; vm_compute; try rewrite Hbad; reflexivity.
 Qed.
 
-(** before 7667690: an HTTP/2 request without SNI is answered by the default host whatever its :authority *)
+(** before fff35ad: an HTTP/2 request without SNI is answered by the default host whatever its :authority *)
 Lemma h2_authority_ignored_refuted : forall auth_ok : bytes -> bool,
   exists ops c r, build ops = Ok c /\
     wire_history auth_ok (mkFixes true true false) c (fun _ => hstate0) [r] = [Ok (W200 1 1)] /\
